@@ -620,6 +620,11 @@ func c04Exec(c *arshalCase) {
 		c.Note = truncate(err2.Error(), 200)
 		return
 	}
+	// the same text through a streaming decoder whose buffer is refilled on the way
+	p2r := reflect.New(t)
+	err2r := jsonv2.UnmarshalRead(&scriptedReader{data: out1, chunks: []int{64, 7, 1, 300}}, p2r.Interface(), opts...)
+	c.Outs = append(c.Outs, okBytes("dec1r", nil, err2r))
+	streamSame := err2r == nil && equalNorm(p2.Elem(), p2r.Elem())
 	out2, err3 := jsonv2.Marshal(p2.Elem().Interface(), opts...)
 	c.Outs = append(c.Outs, okBytes("out2", out2, err3))
 	p3 := reflect.New(t)
@@ -632,7 +637,7 @@ func c04Exec(c *arshalCase) {
 	// Go equality of the decoded value with the original (nil and empty containers identified)
 	// [decoded == original, equality is meaningful for this type and option set]
 	meaningful := !c.Omit && !descHas(td, "any", "raw") && c.Opts.Name != "nilasnull" && !hasFormat
-	c.Flags = []bool{equalNorm(v, p2.Elem()), meaningful}
+	c.Flags = []bool{equalNorm(v, p2.Elem()), meaningful, streamSame}
 }
 
 // formats that do not keep everything of the Go value (sub-seconds, centuries, zone offsets):
